@@ -305,6 +305,17 @@ def main_check(tier, prop):
         viol = 1
         violation(prop, {'property': prop, 'broken': 'no theorem file coq/Properties_%s.v' % prop}, 'notheorem', nofail=True)
 
+    # ---- 4b. thorough tier: independent re-check of the compiled proofs with coqchk ----
+    coqchk = None
+    if tier == 'thorough' and thms and not coq_broken:
+        r = sh(['coqchk', '-silent', '-o', '-Q', os.path.join(ROOT, 'coq'), 'Pory', 'Pory.Properties_%s' % prop], timeout=6000)
+        m = re.search(r'\* Axioms:(.*?)\n\s*\n\* Constants', r.stdout, re.S)
+        ax = m.group(1).strip() if m else '?'
+        coqchk = {'exit': r.returncode, 'axioms': ax, 'summary': r.stdout[-700:]}
+        if (r.returncode != 0 or ax != '<none>') and not viol:
+            viol = 1
+            violation(prop, {'property': prop, 'broken': 'coqchk does not accept the compiled proofs of Properties_%s or reports axioms' % prop, 'coqchk': coqchk}, 'coqchk', nofail=True)
+
     # ---- 5. evidence ----
     samples = []
     for l in lines:
@@ -329,6 +340,8 @@ def main_check(tier, prop):
         'mismatches': len(mism), 'oracle_failures': len(fails), 'known_findings_matched': len(known_printed),
         'exhaustive': False,
     }
+    if coqchk is not None:
+        coverage['coqchk'] = coqchk
     write_evidence(prop, tier, seed, 'proof', coverage, time.time() - t0, viol,
                    ['the model is tied to the implementation by exact agreement on the generated cases of this run only',
                     'theorems are about the Gallina model; see DESIGN.md section 8 for the trusted base'])
